@@ -132,6 +132,10 @@ class Mailbox:
         db.execute("UPDATE `mailbox_sides` SET `opened`=?, `mood`=?"
                    " WHERE `mailbox_id`=? AND `side`=?",
                    (False, mood, self._mailbox_id, side))
+        # a close is activity like claim/open/add. A re-sent close (on a new
+        # connection) goes through open() and stamps the mailbox, so the
+        # first one must too, or the duplicate changes when the mailbox expires
+        self._touch(when)
         db.commit()
 
         # are any sides still open?
